@@ -47,9 +47,12 @@ def build():
 
     # ------------------------------------------------------------------ _run_handlers_sequential (bounded)
     C.cls("Cond", fields={})
-    C.ext("Cond.evaluate", model=lambda I, env, a, k: VBool(z3.Bool(I.fresh_name("cond"))),
-          trusted_reason="condition template (C16)")
-    RH = TupleS(Fn, Int, Init(lambda I, name: I.new_dict(())), Opaque("UUID"), Const(None), NoneT,
+    def cond_eval(I, env, a, k):
+        r = VBool(z3.Bool(I.fresh_name("cond")))
+        emit(I, "cond", obj=env["self"], result=r)
+        return r
+    C.ext("Cond.evaluate", model=cond_eval, trusted_reason="condition template (C16): reads the CURRENT variable values")
+    RH = TupleS(Fn, Int, Init(lambda I, name: I.new_dict(())), Opaque("UUID"), Opt(ObjS("Cond")), NoneT,
                 ntname="RegisteredHandler",
                 fields=("callback", "priority", "kwargs", "key", "condition", "blocking_facility"))
 
@@ -81,6 +84,8 @@ def build():
         of the queue that owns the event, which also frees the queue (A-ASYNCIO + clear's contract)"""
         evo = env["self"].ref
         emit(I, "await", ev=env["self"])
+        if I.ctx.branch(I.truth(I.read_field(evo, "flag"))):
+            return VBool(True)      # Event.wait() on a set event returns at once: nobody cleared anything
         # while suspended: any queue whose event is this one gets cleared by its holder
         for (o, f), v in list(I.heap.data.items()):
             if f == "event" and isinstance(o, Obj) and o.cls == "QueuedEvent":
@@ -98,6 +103,12 @@ def build():
         if fc0 is None or fc0.key != "EventManager._run_handlers_sequential":
             return NONE
         q = kwargs.get("queue")
+        if q is None and I.trace and I.trace[-1].name == "callback":
+            outstanding = [o for (o, f), v in I.heap.data.items()
+                           if f == "waiter" and isinstance(o, Obj) and o.cls == "QueuedEvent" and
+                           getattr(o, "used_by_handler", False)]
+            I.trace[-1].args["earlier_waits"] = z3.Or([I.truth(I.heap.data[(o, "waiter")]) for o in outstanding] +
+                                                      [z3.BoolVal(False)])
         if q is not None and I.trace and I.trace[-1].name == "callback" and I.trace[-1].args["args"] == ():
             qo = I.force(q)
             if qo.tag == "obj" and qo.ref.cls == "QueuedEvent":
@@ -122,14 +133,45 @@ def build():
         reg = I.old_heap.data[(I.force(I.read_field(this, "registered_handlers", heap=I.old_heap)).ref, "$")]
         lst = reg.get(I.force(env["event"]))
         handlers = [I.force(h) for h in I.old_heap.data[(I.force(lst).ref, "$")].items] if lst is not None else []
-        calls = [e for e in I.cur_trace() if e.name == "callback"]
         cb = I.force(env["callback"])
-        want = [I.force(h.items[0]).t for h in handlers] + ([cb.t] if cb.tag != "none" else [])
-        got = [I.force(e.args["fn"]).t for e in calls]
-        if len(got) != len(want) or not all(a.eq(b) for a, b in zip(got, want)):
+        E = [e for e in I.cur_trace() if e.name in ("callback", "cond", "await")]
+        p = 0
+        cs = []
+        for h in handlers:
+            # a handler's condition is evaluated right before its turn (after earlier handlers and their waits)
+            cond_true = z3.BoolVal(True)
+            calts = h.items[4].alts if isinstance(h.items[4], VUnion) else ((z3.BoolVal(True), h.items[4]),)
+            cobjs = [a.ref for _, a in calts if a.tag == "obj"]
+            if p < len(E) and E[p].name == "cond" and any(I.force(E[p].args["obj"]).ref is o for o in cobjs):
+                cs.append(z3.Not(I.is_none(h.items[4])))
+                cond_true = I.force(E[p].args["result"]).t
+                p += 1
+                called = p < len(E) and E[p].name == "callback" and I.force(E[p].args["fn"]).t.eq(I.force(h.items[0]).t)
+                if not called:
+                    cs.append(z3.Not(cond_true))
+                    continue
+            else:
+                cs.append(I.is_none(h.items[4]))
+            if not (p < len(E) and E[p].name == "callback" and I.force(E[p].args["fn"]).t.eq(I.force(h.items[0]).t)):
+                return VBool(False)
+            cs.append(cond_true)
+            cs.append(z3.Not(E[p].args.get("earlier_waits", z3.BoolVal(False))))
+            p += 1
+            if p < len(E) and E[p].name == "await":
+                p += 1
+        if cb.tag != "none":
+            if not (p < len(E) and E[p].name == "callback" and I.force(E[p].args["fn"]).t.eq(cb.t)):
+                return VBool(False)
+            cs.append(z3.Not(E[p].args.get("earlier_waits", z3.BoolVal(False))))
+            p += 1
+        if p != len(E):
             return VBool(False)
-        cs = [z3.Not(e.args.get("earlier_waits", z3.BoolVal(False))) for e in calls]
         return VBool(z3.And(cs + [z3.BoolVal(True)]))
+    def seq_kwargs(I, name):
+        if I.ctx.fork(2) == 0:
+            return I.new_dict((("a", VInt(z3.Int("kw_a"))),))
+        q = I.fresh(ObjS("QueuedEvent", QE_FIELDS), name + "[queue]")
+        return I.new_dict((("a", VInt(z3.Int("kw_a"))), ("queue", q)))
     C.helpers["seq_ok"] = seq_ok
     C.trace_helpers = {"seq_ok", "n_posts_queue"}
     C.cls("MpfController", fields={})
@@ -137,9 +179,10 @@ def build():
         _debug=Bool, debug_log=Fn, registered_handlers=Init(registry), callback_queue=Seq(Opaque("CbEntry")),
         _queue_tasks=Seq(Opaque("Task"))))
     C.fn("EventManager._run_handlers_sequential",
-         params=dict(event=Str, callback=Opt(Fn), kwargs=Init(lambda I, name: I.new_dict((("a", VInt(z3.Int("kw_a"))),)))),
-         requires=[("the posted kwargs carry no held wait queue (protocol obligation on post_queue callers)",
-                    "'queue' not in kwargs")],
+         params=dict(event=Str, callback=Opt(Fn), kwargs=Init(seq_kwargs)),
+         requires=[("the posted kwargs carry no HELD wait queue (protocol obligation on post_queue callers); a free "
+                    "one may be forwarded and is then shared by all handlers",
+                    "'queue' not in kwargs or not kwargs['queue'].waiter")],
          ensures=[("every registered handler runs, in order, never while an earlier wait is outstanding, and the "
                    "completion callback fires exactly once, last", "seq_ok()")],
          modifies=[], raises={},
@@ -190,7 +233,38 @@ def build():
     for m in ("mode_will_start", "_add_mode_devices", "_setup_device_control_events", "add_mode_event_handler"):
         C.ext("Mode." + m, model=common.noop, trusted_reason="mode set-up hook (C07); does not touch wait queues")
     C.ext("Mode._started", model=common.noop, trusted_reason="completion callback of the starting event (C07)")
-    C.ext("Mode.stop", model=common.noop, trusted_reason="C07")
+    C.cls("DelayManager", fields={})
+    C.ext("DelayManager.clear", model=common.noop, trusted_reason="mode delays (C13)")
+    C.ext("Mode._remove_mode_switch_handlers", model=common.noop, trusted_reason="C07")
+    C.ext("Mode._stopped", model=common.noop, trusted_reason="completion callback of the stopping event (C07)")
+
+    def cb_registered(I, cb):
+        """the callback is in stop_callbacks (it will be called when the mode has stopped)"""
+        this = I.frames[0].env["self"].ref
+        c = I.container(I.force(I.read_field(this, "stop_callbacks")).ref)
+        c0 = I.old_heap.data[(I.force(I.read_field(this, "stop_callbacks", heap=I.old_heap)).ref, "$")]
+        return VBool(c.term == z3.Concat(c0.term, z3.Unit(I.force(cb).t)))
+
+    def cbs_unchanged(I):
+        this = I.frames[0].env["self"].ref
+        c = I.container(I.force(I.read_field(this, "stop_callbacks")).ref)
+        c0 = I.old_heap.data[(I.force(I.read_field(this, "stop_callbacks", heap=I.old_heap)).ref, "$")]
+        return VBool(c.term == c0.term)
+    C.helpers["cb_registered"] = cb_registered
+    C.helpers["cbs_unchanged"] = cbs_unchanged
+    C.helpers["n_posts_queue"] = lambda I: VInt(len([e for e in events_named(I, "post") if e.args["kind"] == "post_queue"]))
+    C.classes["Mode"].fields.update(dict(stop_callbacks=Seq(Fn), stopping=Bool, mode_stop_kwargs=Opaque("Any"),
+                                         delay=ObjS("DelayManager")))
+    C.fn("Mode.stop", params=dict(callback=Opt(Fn), kwargs=Init(lambda I, name: I.new_dict(()))), result=Bool,
+         ensures=[("a stop request on a running mode (also one that is already stopping) always registers its "
+                   "completion callback, exactly once - it will fire when the mode has stopped",
+                   "implies(old(self._active) and callback is not None, cb_registered(callback))"),
+                  ("no callback is registered for a mode that is not running",
+                   "implies(not old(self._active) or callback is None, cbs_unchanged())"),
+                  ("the stopping queue event is posted once per stop, not again while already stopping",
+                   "n_posts_queue() == (1 if (old(self._active) and not old(self.stopping)) else 0)"),
+                  ("returns whether the mode was running", "result == old(self._active)")],
+         modifies=["self.stop_callbacks", "self.stopping", "self.mode_stop_kwargs"], raises={})
     C.globals["MODE_STARTING_EVENT_TEMPLATE"] = VStr("mode_{}_starting")
     C.fn("Mode.start", params=dict(mode_priority=Opt(Int), callback=Opt(Fn), kwargs=Init(start_kwargs)),
          modifies=["self._starting", "self._mode_start_wait_queue", "self._mode_start_wait_queue.waiter", "self.priority",
